@@ -65,6 +65,8 @@ type probe struct {
 	delivered []int64
 	excs      int
 	panicOn   map[int]bool // panic on the k-th idle event
+	holdUs    int64        // how long this (downstream) handler takes to process the inactive event
+	seenInact int64        // when the inactive event arrived here, i.e. had passed the idle handler
 }
 
 func (p *probe) HandleEvent(ctx netty.EventContext, ev netty.Event) {
@@ -85,9 +87,17 @@ func (p *probe) HandleException(ctx netty.ExceptionContext, ex netty.Exception) 
 	p.excs++
 	p.mu.Unlock()
 }
-func (p *probe) HandleRead(ctx netty.InboundContext, m netty.Message)         {}
-func (p *probe) HandleActive(ctx netty.ActiveContext)                         {}
-func (p *probe) HandleInactive(ctx netty.InactiveContext, ex netty.Exception) {}
+func (p *probe) HandleRead(ctx netty.InboundContext, m netty.Message) {}
+func (p *probe) HandleActive(ctx netty.ActiveContext)                 {}
+func (p *probe) HandleInactive(ctx netty.InactiveContext, ex netty.Exception) {
+	p.mu.Lock()
+	p.seenInact = time.Since(p.sc.start).Microseconds()
+	h := p.holdUs
+	p.mu.Unlock()
+	if h > 0 {
+		time.Sleep(time.Duration(h) * time.Microsecond)
+	}
+}
 
 type spec struct {
 	Write   bool  `json:"write"` // write-idle handler (else read-idle)
@@ -186,7 +196,11 @@ func run(sp spec) *result {
 		}
 		lastUpd = t1
 	}
+	mustBeSilent := false
 	doInactive := func() {
+		if rng.Chance(50) {
+			pr.holdUs = idle*2 + idle/2 // a slow handler behind the idle handler
+		}
 		t0 := now()
 		inflight := 0
 		for _, c := range r.Cbs {
@@ -198,6 +212,17 @@ func run(sp spec) *result {
 		t1 := now()
 		if parked == nil && t1-lastUpd >= idle-margin/2 {
 			r.Inconclusive = "inactive took so long that the deadline may have passed meanwhile"
+		}
+		// when the event had passed the idle handler before the pending deadline could be reached and no
+		// callback was in flight, the timer was stopped in time: no callback may ever start again
+		pr.mu.Lock()
+		seen := pr.seenInact
+		pr.mu.Unlock()
+		if parked == nil && inflight == 0 && len(r.Updates) > 0 && seen > 0 && seen < r.Updates[len(r.Updates)-1][0]+idle-margin/2 {
+			mustBeSilent = true
+			if r.Inconclusive != "" && strings.HasPrefix(r.Inconclusive, "inactive took so long") {
+				r.Inconclusive = "" // the hold was downstream of the idle handler
+			}
 		}
 		r.Inactive = &[2]int64{t0, t1}
 		r.InflightAtIn = inflight
@@ -389,7 +414,7 @@ func run(sp spec) *result {
 			case a := <-sc.arr:
 				if a.kind == "decide" {
 					r.Cbs = append(r.Cbs, &cbObs{started: a.t})
-					if r.Inactive != nil && a.t > r.Inactive[1]+idle {
+					if mustBeSilent || (r.Inactive != nil && a.t > r.Inactive[1]+idle) {
 						r.LateFires++
 					} else {
 						r.Inconclusive = "a firing raced the final inactive"
@@ -456,7 +481,7 @@ func check(sp spec, r *result, meta *hx.Meta) {
 			v("idle-after-inactive", fmt.Sprintf("%d idle events delivered after inactive had passed the handler with %d callback(s) in flight", after, r.InflightAtIn))
 		}
 		if r.LateFires > 0 {
-			v("timer-after-inactive", fmt.Sprintf("%d timer callback(s) started more than a full idle period after inactive", r.LateFires))
+			v("timer-after-inactive", fmt.Sprintf("%d timer callback(s) started although the inactive event had passed the idle handler before the pending deadline (or more than a full idle period after it)", r.LateFires))
 		}
 	}
 }
